@@ -129,7 +129,18 @@ def _lower(stmts, mode, target):
         if isinstance(st, ast.Return):
             if mode == "assign":
                 val = st.value if st.value is not None else ast.Constant(value=None)
-                out.append(ast.copy_location(ast.Assign(targets=[copy.deepcopy(t) for t in target], value=val, lineno=st.lineno), st))
+                split = None
+                if len(target) == 1 and isinstance(target[0], ast.Tuple) and isinstance(val, ast.Tuple) and len(val.elts) == len(target[0].elts) \
+                        and not any(isinstance(e, ast.Starred) for e in list(val.elts) + list(target[0].elts)):
+                    # `a, b = helper()` with `return x, y`: element-wise assignments when no later element reads an earlier target
+                    tn = [{n.id for n in ast.walk(t) if isinstance(n, ast.Name)} for t in target[0].elts]
+                    rd = [{n.id for n in ast.walk(v) if isinstance(n, ast.Name)} for v in val.elts]
+                    if all(not (tn[i] & rd[j]) for i in range(len(tn)) for j in range(i + 1, len(rd))):
+                        split = [ast.copy_location(ast.Assign(targets=[copy.deepcopy(t)], value=v, lineno=st.lineno), st) for t, v in zip(target[0].elts, val.elts)]
+                if split is not None:
+                    out.extend(split)
+                else:
+                    out.append(ast.copy_location(ast.Assign(targets=[copy.deepcopy(t) for t in target], value=val, lineno=st.lineno), st))
             elif st.value is not None and any(isinstance(n, ast.Call) for n in ast.walk(st.value)):
                 out.append(ast.copy_location(ast.Expr(value=st.value), st))
             return out
